@@ -186,39 +186,83 @@ func runNative(pkgRel string, overlayFiles map[string]string, files []string) (m
 	ovJSON, _ := json.Marshal(map[string]interface{}{"Replace": repl})
 	ovFile := filepath.Join(work, "overlay.json")
 	ioutil.WriteFile(ovFile, ovJSON, 0o644)
-	bin := filepath.Join(work, "replay.test")
 	env := append(os.Environ(), "GOFLAGS=-mod=mod", "GOPROXY=off", "GOSUMDB=off", "GOTOOLCHAIN=local")
-	cmd := exec.Command("go", "test", "-c", "-vet=off", "-overlay", ovFile, "-o", bin, "./"+pkgRel)
-	cmd.Dir = repoRoot
-	cmd.Env = env
-	out, err := cmd.CombinedOutput()
-	if err != nil {
-		return nil, string(out), fmt.Errorf("native build failed: %v\n%s", err, out)
+	// replays of *_Race* harnesses run under Go's race detector (one process per replay, so that a report can be
+	// attributed); everything else runs on the plain build
+	var plain, racy []string
+	for _, f := range files {
+		var rf ReplayFile
+		if b, err := ioutil.ReadFile(f); err == nil && json.Unmarshal(b, &rf) == nil && strings.Contains(rf.Harness, "_Race") {
+			racy = append(racy, f)
+		} else {
+			plain = append(plain, f)
+		}
 	}
 	results := map[string]NativeResult{}
 	var logs strings.Builder
-	// run in chunks to keep env short
-	for start := 0; start < len(files); start += 20 {
-		end := start + 20
-		if end > len(files) {
-			end = len(files)
+	runSet := func(set []string, race bool) error {
+		if len(set) == 0 {
+			return nil
 		}
-		run := exec.Command(bin, "-test.run", "^TestVerifReplay$", "-test.count=1", "-test.timeout=300s")
-		run.Dir = filepath.Join(repoRoot, pkgRel)
-		run.Env = append(env, "VERIF_REPLAY="+strings.Join(files[start:end], ","))
-		o, _ := run.CombinedOutput()
-		logs.Write(o)
-		sc := bufio.NewScanner(strings.NewReader(string(o)))
-		sc.Buffer(make([]byte, 1<<20), 1<<24)
-		for sc.Scan() {
-			line := sc.Text()
-			if j := strings.Index(line, "VERIF-RESULT: "); j >= 0 {
-				var r NativeResult
-				if json.Unmarshal([]byte(line[j+len("VERIF-RESULT: "):]), &r) == nil {
-					results[r.File] = r
+		bin := filepath.Join(work, "replay.test")
+		args := []string{"test", "-c", "-vet=off", "-overlay", ovFile, "-o", bin}
+		chunk := 20
+		if race {
+			bin = filepath.Join(work, "replay_race.test")
+			args = []string{"test", "-c", "-race", "-vet=off", "-overlay", ovFile, "-o", bin}
+			chunk = 1
+		}
+		cmd := exec.Command("go", append(args, "./"+pkgRel)...)
+		cmd.Dir = repoRoot
+		cmd.Env = env
+		out, err := cmd.CombinedOutput()
+		if err != nil {
+			return fmt.Errorf("native build failed: %v\n%s", err, out)
+		}
+		for start := 0; start < len(set); start += chunk {
+			end := start + chunk
+			if end > len(set) {
+				end = len(set)
+			}
+			run := exec.Command(bin, "-test.run", "^TestVerifReplay$", "-test.count=1", "-test.timeout=300s")
+			run.Dir = filepath.Join(repoRoot, pkgRel)
+			run.Env = append(env, "VERIF_REPLAY="+strings.Join(set[start:end], ","))
+			o, _ := run.CombinedOutput()
+			logs.Write(o)
+			sc := bufio.NewScanner(strings.NewReader(string(o)))
+			sc.Buffer(make([]byte, 1<<20), 1<<24)
+			for sc.Scan() {
+				line := sc.Text()
+				if j := strings.Index(line, "VERIF-RESULT: "); j >= 0 {
+					var r NativeResult
+					if json.Unmarshal([]byte(line[j+len("VERIF-RESULT: "):]), &r) == nil {
+						results[r.File] = r
+					}
 				}
 			}
+			if race && strings.Contains(string(o), "WARNING: DATA RACE") {
+				f := set[start]
+				r := results[f]
+				r.File = f
+				id := "data-race"
+				var rf ReplayFile
+				if b, err := ioutil.ReadFile(f); err == nil && json.Unmarshal(b, &rf) == nil {
+					r.Harness = rf.Harness
+					if strings.Contains(rf.AssertID, "race") {
+						id = rf.AssertID
+					}
+				}
+				r.Failed = append(r.Failed, id)
+				results[f] = r
+			}
 		}
+		return nil
+	}
+	if err := runSet(plain, false); err != nil {
+		return nil, "", err
+	}
+	if err := runSet(racy, true); err != nil {
+		return nil, "", err
 	}
 	return results, logs.String(), nil
 }
